@@ -88,3 +88,19 @@ def nthLine (body : List Nat) (k : Nat) : Option (List Nat) :=
 
 end Spec
 end Gql.Text
+
+namespace Gql.Text.Spec
+
+/-- `body[a:b]` -/
+def sliceOf (body : List Nat) (a b : Nat) : List Nat := (body.drop a).take (b - a)
+
+/-- The lines of `body` given its terminators: the stretches of text between the end of one
+terminator (or the start of the text) and the start of the next (or the end of the text). -/
+def linesOf (body : List Nat) : List (Nat × Nat) → Nat → List (List Nat)
+  | [], start => [sliceOf body start body.length]
+  | (s, e) :: rest, start => sliceOf body start s :: linesOf body rest e
+
+/-- All lines of a source text under the terminator set LF / CR LF / CR. -/
+def lines (body : List Nat) : List (List Nat) := linesOf body (terms body 0) 0
+
+end Gql.Text.Spec
